@@ -52,7 +52,9 @@ def _guard_hook(ev, args):
             return
         paths = (p,)
     elif ev in _MUT_EVENTS:
-        paths = tuple(a for a in args[:2] if isinstance(a, (str, bytes, os.PathLike)))
+        # (os.symlink(src, dst): src is what the link will contain, not a file that is touched -- and when it is relative
+        # it is relative to the link, not to our working directory)
+        paths = tuple(a for a in (args[1:2] if ev == "os.symlink" else args[:2]) if isinstance(a, (str, bytes, os.PathLike)))
     else:
         return
     dir_fds = [a for a in args[1:] if isinstance(a, int) and not isinstance(a, bool) and ev != "open" and ev not in ("os.chmod", "os.mkdir") and a >= 0]
